@@ -16,62 +16,62 @@ NEXT = "re:iter::traits::iterator::Iterator::next$"
 def run(c):
     # --- transaction
     c.r1_all("tx-validate", T + "Transaction::validate",
-             [T + "TransactionBody::verify_features", T + "TransactionBody::validate", VKS], via=0)
+             [T + "TransactionBody::verify_features", T + "TransactionBody::validate", VKS], via=2)
     c.r2_arg("tx-sums-overage", T + "Transaction::validate", VKS, 1, must=["call:Transaction::overage"])
     c.r2_arg("tx-sums-offset", T + "Transaction::validate", VKS, 2, must=["arg0.offset"])
-    c.r1_all("body-validate", T + "TransactionBody::validate", [T + "TransactionBody::validate_read", T + "TxKernel::batch_sig_verify"], via=0)
-    c.r1("body-validate-proofs", T + "TransactionBody::validate", T + "Output::batch_verify_proofs", via=0,
+    c.r1_all("body-validate", T + "TransactionBody::validate", [T + "TransactionBody::validate_read", T + "TxKernel::batch_sig_verify"], via=2)
+    c.r1("body-validate-proofs", T + "TransactionBody::validate", T + "Output::batch_verify_proofs", via=2,
          extra_cuts=c.true_edges(T + "TransactionBody::validate", r"^Vec::is_empty\(arg0\.outputs\)$"),
          desc="TransactionBody::validate: ok => batch_verify_proofs, only bypass is outputs.is_empty()")
     c.r1_all("body-validate-read", T + "TransactionBody::validate_read",
              [T + "TransactionBody::verify_weight", T + "TransactionBody::verify_no_nrd_duplicates", T + "TransactionBody::verify_sorted",
-              T + "TransactionBody::verify_cut_through"], via=0)
+              T + "TransactionBody::verify_cut_through"], via=2)
     c.r1_all("features", T + "TransactionBody::verify_features",
-             [T + "TransactionBody::verify_output_features", T + "TransactionBody::verify_kernel_features"], via=0)
+             [T + "TransactionBody::verify_output_features", T + "TransactionBody::verify_kernel_features"], via=2)
     c.r2("no-coinbase-output-in-tx", T + "TransactionBody::verify_output_features", cond=r"Iterator::any\(slice::iter\(arg0\.outputs\)", err="InvalidOutputFeatures")
     c.r2("no-coinbase-kernel-in-tx", T + "TransactionBody::verify_kernel_features", cond=r"Iterator::any\(slice::iter\(arg0\.kernels\)", err="InvalidKernelFeatures")
     for i, (fn, atom) in enumerate(((T + "TransactionBody::verify_output_features@iterator::Iterator::any", "Output::is_coinbase"),
                                     (T + "TransactionBody::verify_kernel_features@iterator::Iterator::any", "TxKernel::is_coinbase"))):
-        c.r1("feature-closure-%d" % i, fn, "re:::is_coinbase$", sink="return", via=0, desc="%s tests is_coinbase" % fn)
+        c.r1("feature-closure-%d" % i, fn, "re:::is_coinbase$", sink="return", via=2, desc="%s tests is_coinbase" % fn)
     # --- signatures
     c.r2("sig-single", T + "TxKernel::verify", cond=r"^aggsig::verify_single\(.*arg0\.excess_sig, TxKernel::msg_to_sign\(arg0\).*Commitment::to_pubkey\(arg0\.excess",
          fail_on=False, err="IncorrectSignature")
     c.r2("sig-batch", T + "TxKernel::batch_sig_verify", cond=r"^aggsig::verify_batch\(", fail_on=False, err="IncorrectSignature")
-    c.r1("sig-batch-pubkey", T + "TxKernel::batch_sig_verify", "re:pedersen::Commitment::to_pubkey$", sink=NEXT, start=NEXT, via=0,
+    c.r1("sig-batch-pubkey", T + "TxKernel::batch_sig_verify", "re:pedersen::Commitment::to_pubkey$", sink=NEXT, start=NEXT, via=2,
          desc="batch_sig_verify: every loop iteration derives the public key (from kernel.excess)")
-    c.r1("sig-batch-msg", T + "TxKernel::batch_sig_verify", T + "TxKernel::msg_to_sign", sink=NEXT, start=NEXT, via=0,
+    c.r1("sig-batch-msg", T + "TxKernel::batch_sig_verify", T + "TxKernel::msg_to_sign", sink=NEXT, start=NEXT, via=2,
          desc="batch_sig_verify: every loop iteration computes msg_to_sign")
     c.r2_arg("sig-batch-excess", T + "TxKernel::batch_sig_verify", "re:pedersen::Commitment::to_pubkey$", 0, must=["re:\\.excess$"])
-    c.r1("proofs", T + "Output::batch_verify_proofs", "re:pedersen::verify_bullet_proof_multi$", via=0)
+    c.r1("proofs", T + "Output::batch_verify_proofs", "re:pedersen::verify_bullet_proof_multi$", via=2)
     c.r2_arg("proofs-args", T + "Output::batch_verify_proofs", "re:pedersen::verify_bullet_proof_multi$", 1, must=["arg0"])
     c.r2_arg("proofs-args2", T + "Output::batch_verify_proofs", "re:pedersen::verify_bullet_proof_multi$", 2, must=["arg1"])
     # --- sums
     c.r2("kernel-sum-mismatch", VKS, ops={"Ne"}, lhs=["call:Committed::sum_commitments", "arg1"], rhs=["call:Committed::sum_kernel_excesses", "arg2"],
          err="KernelSumMismatch")
-    c.r1_all("kernel-sums-computed", VKS, ["grin_core::core::committed::Committed::sum_commitments", "grin_core::core::committed::Committed::sum_kernel_excesses"], via=0)
+    c.r1_all("kernel-sums-computed", VKS, ["grin_core::core::committed::Committed::sum_commitments", "grin_core::core::committed::Committed::sum_kernel_excesses"], via=2)
     # --- block
     c.r1_all("block-validate", B + "Block::validate",
              [T + "TransactionBody::validate", B + "Block::verify_kernel_lock_heights", B + "Block::verify_nrd_kernels_for_header_version",
-              B + "Block::verify_coinbase", VKS], via=0)
+              B + "Block::verify_coinbase", VKS], via=2)
     c.r2_arg("block-sums-overage", B + "Block::validate", VKS, 1, must=["call:BlockHeader::overage"])
     c.r2_arg("block-sums-offset", B + "Block::validate", VKS, 2, must=["call:Block::block_kernel_offset", "arg1"])
     c.r2("coinbase-sum", B + "Block::verify_coinbase", ops={"Ne"}, lhs=["call:pedersen::commit_sum"], rhs=["call:pedersen::commit_sum"], err="CoinbaseSumMismatch")
     c.r2_arg("coinbase-reward", B + "Block::verify_coinbase", "re:pedersen::commit_value$", 1, must=["call:consensus::reward", "call:Block::total_fees"])
     for i in (0, 1):
-        c.r1("coinbase-filter-%d" % i, B + "Block::verify_coinbase@iterator::Iterator::filter#%d" % (i + 1), "re:::is_coinbase$", sink="return", via=0,
+        c.r1("coinbase-filter-%d" % i, B + "Block::verify_coinbase@iterator::Iterator::filter#%d" % (i + 1), "re:::is_coinbase$", sink="return", via=2,
              desc="verify_coinbase filter closure #%d selects by is_coinbase" % i)
     c.const_eq("reward-60", "grin_core::consensus::REWARD", 60 * 10**9)
     c.r2_ret("overage-reward", B + "BlockHeader::overage", must=["call:num::checked_neg", "re:^item:consensus::REWARD="])
     c.r2_ret("total-overage-reward", B + "BlockHeader::total_overage", must=["call:num::checked_neg", "re:^item:consensus::REWARD=", "arg0.height"])
     c.r2_ret("reward-fn", "grin_core::consensus::reward", must=["re:^item:consensus::REWARD=", "arg0"])
     # --- pipeline
-    c.r1("validate-before-extending", P + "process_block", P + "validate_block", sink=X + "extending", via=0)
-    c.r1("validate_block", P + "validate_block", B + "Block::validate", via=0)
+    c.r1("validate-before-extending", P + "process_block", P + "validate_block", sink=X + "extending", via=2)
+    c.r1("validate_block", P + "validate_block", B + "Block::validate", via=2)
     c.r2_arg("validate_block-offset", P + "validate_block", B + "Block::validate", 1, must=["call:Batch::get_previous_header", "re:total_kernel_offset$"])
-    c.r1("sums-before-apply", P + "process_block@txhashset::txhashset::extending", P + "verify_block_sums", sink=P + "apply_block_to_txhashset", via=0)
-    c.r1("fork-sums-before-apply", P + "rewind_and_apply_fork", P + "verify_block_sums", sink=P + "apply_block_to_txhashset", start=NEXT, via=0,
+    c.r1("sums-before-apply", P + "process_block@txhashset::txhashset::extending", P + "verify_block_sums", sink=P + "apply_block_to_txhashset", via=2)
+    c.r1("fork-sums-before-apply", P + "rewind_and_apply_fork", P + "verify_block_sums", sink=P + "apply_block_to_txhashset", start=NEXT, via=2,
          desc="fork loop: each re-applied block passes verify_block_sums before apply_block_to_txhashset")
-    c.r1("save-sums-after-check", P + "verify_block_sums", VKS, sink="grin_chain::store::Batch::save_block_sums", via=0)
+    c.r1("save-sums-after-check", P + "verify_block_sums", VKS, sink="grin_chain::store::Batch::save_block_sums", via=2)
     c.r2_arg("block-sums-args", P + "verify_block_sums", VKS, 1, must=["call:BlockHeader::overage"])
     c.r2_arg("block-sums-args2", P + "verify_block_sums", VKS, 2, must=["call:BlockHeader::total_kernel_offset"])
     c.r2_arg("block-sums-prev", P + "verify_block_sums", "grin_chain::store::Batch::get_block_sums", 1, must=["re:header\\.prev_hash$"])
@@ -80,35 +80,35 @@ def run(c):
          {P + "verify_block_sums", "grin_chain::chain::Chain::txhashset_write", "grin_chain::chain::setup_head",
           "grin_chain::txhashset::desegmenter::Desegmenter::validate_complete_state"}, floor_sites=5)
     sums = [VKS, X + "Extension::validate", X + "Extension::validate_kernel_sums"]
-    c.r1("sums-writer-1", "grin_chain::chain::Chain::txhashset_write@txhashset::txhashset::extending", sums, sink="grin_chain::store::Batch::save_block_sums", via=0)
-    c.r1("sums-writer-2", "grin_chain::txhashset::desegmenter::Desegmenter::validate_complete_state@txhashset::txhashset::extending", sums, sink="grin_chain::store::Batch::save_block_sums", via=0)
-    c.r1("sums-writer-3", "grin_chain::chain::setup_head@txhashset::txhashset::extending#1", sums, sink="grin_chain::store::Batch::save_block_sums", via=0)
-    c.r1("sums-writer-4", "grin_chain::chain::setup_head", sums, sink="grin_chain::store::Batch::save_block_sums", via=0,
+    c.r1("sums-writer-1", "grin_chain::chain::Chain::txhashset_write@txhashset::txhashset::extending", sums, sink="grin_chain::store::Batch::save_block_sums", via=2)
+    c.r1("sums-writer-2", "grin_chain::txhashset::desegmenter::Desegmenter::validate_complete_state@txhashset::txhashset::extending", sums, sink="grin_chain::store::Batch::save_block_sums", via=2)
+    c.r1("sums-writer-3", "grin_chain::chain::setup_head@txhashset::txhashset::extending#1", sums, sink="grin_chain::store::Batch::save_block_sums", via=2)
+    c.r1("sums-writer-4", "grin_chain::chain::setup_head", sums, sink="grin_chain::store::Batch::save_block_sums", via=2,
          extra_cuts=c.true_edges("grin_chain::chain::setup_head", r"^slice::is_empty\(Block::kernels\(arg0\)\)$"),
          desc="setup_head (fresh node): genesis sums saved after verify_kernel_sums; only bypass is a kernel-less genesis (zero sums)")
     c.r3("block-writers", "grin_chain::store::Batch::save_block", {P + "add_block", "grin_chain::chain::setup_head"}, floor_sites=2)
     c.r3("add_block-callers", P + "add_block", {P + "process_block"}, floor_sites=1)
     # --- full-state validation
     E = X + "Extension::validate"
-    c.r1_all("state-validate", E, [X + "Extension::validate_mmrs", X + "Extension::validate_roots", X + "Extension::validate_sizes"], via=0)
+    c.r1_all("state-validate", E, [X + "Extension::validate_mmrs", X + "Extension::validate_roots", X + "Extension::validate_sizes"], via=2)
     genesis = c.true_edges(E, r"^Eq\(arg0\.head\.height, 0\)$")
     fast = c.true_edges(E, r"^arg2$")
-    c.r1("state-validate-sums", E, X + "Extension::validate_kernel_sums", via=0, extra_cuts=genesis,
+    c.r1("state-validate-sums", E, X + "Extension::validate_kernel_sums", via=2, extra_cuts=genesis,
          desc="Extension::validate: ok => validate_kernel_sums, only bypass head.height == 0")
-    c.r1("state-validate-proofs", E, X + "Extension::verify_rangeproofs", via=0, extra_cuts=genesis + fast,
+    c.r1("state-validate-proofs", E, X + "Extension::verify_rangeproofs", via=2, extra_cuts=genesis + fast,
          desc="Extension::validate: ok => verify_rangeproofs, bypasses head.height == 0 and fast_validation")
-    c.r1("state-validate-sigs", E, X + "Extension::verify_kernel_signatures", via=0, extra_cuts=genesis + fast,
+    c.r1("state-validate-sigs", E, X + "Extension::verify_kernel_signatures", via=2, extra_cuts=genesis + fast,
          desc="Extension::validate: ok => verify_kernel_signatures, bypasses head.height == 0 and fast_validation")
     if len(genesis) != 1 or len(fast) != 1:
         c.lost("state-validate-bypasses", "R2", E, "Extension::validate has exactly the genesis and fast_validation bypasses", "bypass guards found: %d genesis, %d fast" % (len(genesis), len(fast)))
-    c.r1("state-proofs-batch-cleared-after-verify", X + "Extension::verify_rangeproofs", T + "Output::batch_verify_proofs", sink="re:alloc::vec::Vec::clear$", via=0,
+    c.r1("state-proofs-batch-cleared-after-verify", X + "Extension::verify_rangeproofs", T + "Output::batch_verify_proofs", sink="re:alloc::vec::Vec::clear$", via=2,
          desc="verify_rangeproofs: a batch of commitments/proofs is cleared only after batch_verify_proofs succeeded on it")
-    c.r1("state-sigs-batch-cleared-after-verify", X + "Extension::verify_kernel_signatures", T + "TxKernel::batch_sig_verify", sink="re:alloc::vec::Vec::clear$", via=0,
+    c.r1("state-sigs-batch-cleared-after-verify", X + "Extension::verify_kernel_signatures", T + "TxKernel::batch_sig_verify", sink="re:alloc::vec::Vec::clear$", via=2,
          desc="verify_kernel_signatures: a batch of kernels is cleared only after batch_sig_verify succeeded on it")
     c.r2_arg("state-proofs-from-mmr", X + "Extension::verify_rangeproofs", "re:alloc::vec::Vec::push$", 1, must=["re:^call:ReadablePMMR::get_data$"], floor=2,
              desc="verify_rangeproofs verifies the commitments and proofs stored in the output / range-proof MMRs")
     c.r2_arg("state-sigs-from-mmr", X + "Extension::verify_kernel_signatures", "re:alloc::vec::Vec::push$", 1, must=["re:^call:ReadablePMMR::get_data$", "arg0.kernel_pmmr"], floor=1)
-    c.r1("state-sums", X + "Extension::validate_kernel_sums", VKS, via=0)
+    c.r1("state-sums", X + "Extension::validate_kernel_sums", VKS, via=2)
     c.r2_arg("state-sums-overage", X + "Extension::validate_kernel_sums", VKS, 1, must=["call:BlockHeader::total_overage"])
     c.r2_arg("state-sums-offset", X + "Extension::validate_kernel_sums", VKS, 2, must=["call:BlockHeader::total_kernel_offset"])
     c.r2_arg("peer-state-never-fast-1", "grin_chain::chain::Chain::txhashset_write@txhashset::txhashset::extending", E, 2, const=0,
